@@ -152,6 +152,43 @@ func (interp *Interpreter) Use(values Exports) error {
 	return nil
 }
 
+// isLogNew returns true if f is a function with the parameters of log.New and
+// one result.
+func isLogNew(f reflect.Value) bool {
+	if !f.IsValid() || f.Kind() != reflect.Func {
+		return false
+	}
+	t, r := f.Type(), reflect.TypeOf(log.New)
+	if t.NumIn() != r.NumIn() || t.NumOut() != 1 || t.IsVariadic() {
+		return false
+	}
+	for i := 0; i < r.NumIn(); i++ {
+		if t.In(i) != r.In(i) {
+			return false
+		}
+	}
+	return true
+}
+
+// logMethods lists the methods of the standard logger to which the functions
+// of the same name in package log are bound.
+var logMethods = []string{
+	"Flags", "Output", "Panic", "Panicf", "Panicln", "Prefix", "Print", "Printf", "Println",
+	"SetFlags", "SetOutput", "SetPrefix", "Writer",
+}
+
+// hasLogMethods returns true if v has the methods in logMethods, with the
+// same types as those of a logger.
+func hasLogMethods(v reflect.Value) bool {
+	ref := reflect.ValueOf(log.Default())
+	for _, name := range logMethods {
+		if m := v.MethodByName(name); !m.IsValid() || m.Type() != ref.MethodByName(name).Type() {
+			return false
+		}
+	}
+	return true
+}
+
 // fixStdlib redefines interpreter stdlib symbols to use the standard input,
 // output and errror assigned to the interpreter. The changes are limited to
 // the interpreter only.
@@ -188,25 +225,33 @@ func fixStdlib(interp *Interpreter) {
 	}
 
 	if p = interp.binPkg["log"]; p != nil {
-		l := log.New(stderr, "", log.LstdFlags)
-		// Restrict Fatal symbols to panic instead of exit.
-		p["Fatal"] = reflect.ValueOf(l.Panic)
-		p["Fatalf"] = reflect.ValueOf(l.Panicf)
-		p["Fatalln"] = reflect.ValueOf(l.Panicln)
+		// The standard logger is created by the New function of the symbols in
+		// use, which may return a wrapper restricting the Fatal methods.
+		l := reflect.ValueOf(log.New(stderr, "", log.LstdFlags))
+		if f := p["New"]; isLogNew(f) {
+			w := f.Call([]reflect.Value{reflect.ValueOf(&stderr).Elem(), reflect.ValueOf(""), reflect.ValueOf(log.LstdFlags)})[0]
+			if hasLogMethods(w) {
+				l = w
+			}
+		}
+		method := func(name string) reflect.Value { return reflect.ValueOf(l.MethodByName(name).Interface()) }
 
-		p["Flags"] = reflect.ValueOf(l.Flags)
-		p["Output"] = reflect.ValueOf(l.Output)
-		p["Panic"] = reflect.ValueOf(l.Panic)
-		p["Panicf"] = reflect.ValueOf(l.Panicf)
-		p["Panicln"] = reflect.ValueOf(l.Panicln)
-		p["Prefix"] = reflect.ValueOf(l.Prefix)
-		p["Print"] = reflect.ValueOf(l.Print)
-		p["Printf"] = reflect.ValueOf(l.Printf)
-		p["Println"] = reflect.ValueOf(l.Println)
-		p["SetFlags"] = reflect.ValueOf(l.SetFlags)
-		p["SetOutput"] = reflect.ValueOf(l.SetOutput)
-		p["SetPrefix"] = reflect.ValueOf(l.SetPrefix)
-		p["Writer"] = reflect.ValueOf(l.Writer)
+		// Restrict Fatal symbols to panic instead of exit.
+		p["Fatal"] = method("Panic")
+		p["Fatalf"] = method("Panicf")
+		p["Fatalln"] = method("Panicln")
+
+		for _, name := range logMethods {
+			p[name] = method(name)
+		}
+
+		// Default returns the standard logger of the interpreter instead of the
+		// one of the host, if it has the type expected by the symbols in use.
+		if d := p["Default"]; d.IsValid() && d.Kind() == reflect.Func {
+			if t := d.Type(); t.NumIn() == 0 && t.NumOut() == 1 && t.Out(0) == l.Type() {
+				p["Default"] = reflect.MakeFunc(t, func([]reflect.Value) []reflect.Value { return []reflect.Value{l} })
+			}
+		}
 
 		// Update mapTypes to virtualized symbols as well.
 		interp.mapTypes[p["Print"]] = interp.mapTypes[reflect.ValueOf(log.Print)]
